@@ -159,6 +159,20 @@ class Monitor(object):
                     self.violate("priority_ne_class_priority", {"id": ind.id_number, "class": ind.customer_class,
                                                                 "priority": ind.priority_class, "expected": mapping[ind.customer_class]})
 
+        # the counters join-shortest-queue / load balancing read equal the configuration ("JSQ sees the true queue lengths
+        # after arbitrary histories"): customers held by a server at ordinary and scheduled nodes
+        from .. import oracles as _o
+        for j, nd in enumerate(Q.transitive_nodes):
+            if _o.node_kind(self.cfg["nodes"][j]) not in ("fixed", "sched"):
+                continue
+            held = sum(1 for s in nd.servers if s.cust)
+            if nd.number_in_service != held:
+                self.violate("in_service_counter_ne_servers_holding_customers", {"node": nd.id_number, "counter": nd.number_in_service, "held": held,
+                                                                                 "now": Q.current_time})
+            if nd.number_of_individuals != len(nd.all_individuals):
+                self.violate("population_counter_ne_customers_present", {"node": nd.id_number, "counter": nd.number_of_individuals,
+                                                                         "present": len(nd.all_individuals)})
+
     def on_end(self, Q, status, exc):
         self.validated = 1
 
@@ -182,7 +196,8 @@ class Spec(object):
 
     def families(self, tier):
         from .. import universal
-        return focused(tier) + universal.subset(tier, ["net_", "flex", "process", "ccm", "preempt_reroute", "sched_reroute"])
+        return (focused(tier) + universal.subset(tier, ["net_", "flex", "process", "ccm", "preempt_reroute", "sched_reroute"])
+                + sched_preempt_chain(tier, fam="F-counters") + sched_preempt_two_upstream(tier, fam="F-counters"))
 
 
 def focused(tier):
